@@ -28,14 +28,16 @@ RULE = ("bodies = every sequence of <= K lines over {'.', '..', '.a', 'a', '', '
         "non-trivial = distinct (body, chunking) where a chunk starts with '.' right after a line end or the body starts with '.', "
         "and distinct (DATA stream, segmentation) pairs. For a body whose real client stream is wrong (known findings) the "
         "server is additionally fed the reference dot-stuffed stream in every segmentation so that SMTP.dataLineReceived "
-        "stays covered for dot-leading lines")
-BOUNDS = {"quick": "K=3 (585 bodies), SMTP server; ESMTP server for K<=2",
+        "stays covered for dot-leading lines. Additionally: every ordered pair of bodies of <= 2 lines (thorough: also triples of "
+        "<= 1-line bodies, ESMTP too) sent as consecutive messages over ONE connection (second client transaction after RSET), "
+        "whole and byte-at-a-time, each message judged by the same oracle (state carried from one message to the next)")
+BOUNDS = {"quick": "K=3 (585 bodies), SMTP server; ESMTP server for K<=2; 5329 two-message connections",
           "thorough": "K=4 over the first 6 lines + K=3 over 8 (1881 bodies), all read chunkings for bodies <= 10 bytes, ESMTP server too for K<=3, "
-                      "<= 2 network cuts for DATA streams <= 16 bytes (1 cut beyond)"}
+                      "<= 2 network cuts for DATA streams <= 16 bytes (1 cut beyond); 5329 two-message and 6561 three-message connections on both servers"}
 ASSUMPTIONS = [
     "one recipient, one message per connection; delivery.receivedHeader returns a fixed marker line which is expected first",
-    "documented header handling = a blank line is inserted before the first body line when that line is non-empty and has no ':'; "
-    "the check accepts the body with or without that blank line in exactly that case",
+    "documented header handling = a blank line is inserted before the first body line exactly when that line is non-empty and has no ':' "
+    "(comment in SMTP.dataLineReceived); required for every message, also later ones on the same connection",
     "server replies are forwarded to the client after the whole DATA-phase stream has been delivered",
     "violations are attributed to the client when its DATA-phase stream differs from the reference dot-stuffing "
     "(per read chunk), otherwise to the server; the verdict itself only looks at the server side",
@@ -77,10 +79,12 @@ def ref_pieces(body, chunks):
 
 
 def acceptable_messages(lines):
-    exp = [list(lines)]
+    """documented header handling (comment in SMTP.dataLineReceived): "Add a blank line between the generated
+    Received:-header and the message body if the message comes in without any headers" - i.e. exactly when the
+    first body line is non-empty and has no ':'."""
     if lines and lines[0] and b":" not in lines[0]:
-        exp.append([b""] + list(lines))
-    return exp
+        return [[b""] + list(lines)]
+    return [list(lines)]
 
 
 # ---------------------------------------------------------------- real objects
@@ -109,11 +113,12 @@ class ChunkFile:
 
 
 class Client(smtp.SMTPClient):
-    def __init__(self, fileobj):
+    def __init__(self, fileobjs):
         smtp.SMTPClient.__init__(self, b"client.example")
-        self.fileobj = fileobj
+        self.fileobjs = list(fileobjs) if isinstance(fileobjs, (list, tuple)) else [fileobjs]
+        self.fileobj = None
         self.sent = []          # (in_data_phase, line) for every sendLine
-        self.mails = 1
+        self.mails = len(self.fileobjs)
         self.results = []
         self.in_data = False
 
@@ -124,6 +129,7 @@ class Client(smtp.SMTPClient):
     def getMailFrom(self):
         if self.mails:
             self.mails -= 1
+            self.fileobj = self.fileobjs.pop(0)
             return b"a@client.example"
         return None
 
@@ -198,7 +204,7 @@ def _server_class(base):
 SERVERS = {"SMTP": _server_class(smtp.SMTP), "ESMTP": _server_class(smtp.ESMTP)}
 
 
-def session(server_kind, body, chunks, seg, bytewise_all=False, override=None):
+def session(server_kind, body, chunks, seg, bytewise_all=False, override=None, more=()):
     """Run one complete client/server conversation.  seg = tuple of segment lengths for the DATA-phase stream
     (None = whole).  Returns a dict of observations."""
     rec = Rec()
@@ -206,11 +212,11 @@ def session(server_kind, body, chunks, seg, bytewise_all=False, override=None):
     server.rec = rec
     server.delivery = Delivery(rec)
     server.host = b"server.example"
-    client = Client(ChunkFile(body, chunks))
+    client = Client([ChunkFile(body, chunks)] + [ChunkFile(b, (len(b),) if b else ()) for b in more])
     ct, stt = MemTransport(), MemTransport()
     client.makeConnection(ct)
     server.makeConnection(stt)
-    obs = {"stream": None, "pieces": None, "loop": False}
+    obs = {"stream": None, "pieces": None, "loop": False, "phases": []}
 
     def to_server(data, cuts):
         i = 0
@@ -222,7 +228,7 @@ def session(server_kind, body, chunks, seg, bytewise_all=False, override=None):
             server.dataReceived(data[i:i + c])
             i += c
 
-    for _ in range(200):
+    for _ in range(200 + 100 * len(more)):
         progress = False
         if stt.written and not ct.disconnecting:
             data = stt.value()
@@ -246,14 +252,19 @@ def session(server_kind, body, chunks, seg, bytewise_all=False, override=None):
                 ct.producer.resumeProducing()
                 n += 1
             client.in_data = False
-            obs["pieces"] = list(ct.written)
+            pieces = list(ct.written)
             stream = ct.value()
             ct.clear()
-            obs["client_stream"] = stream
-            if override is not None:
-                stream = override
-            obs["stream"] = stream
-            cuts = list(seg) if seg is not None else [len(stream)]
+            first = not obs["phases"]
+            obs["phases"].append({"client_stream": stream, "stream": stream})
+            if first:
+                obs["pieces"] = pieces
+                obs["client_stream"] = stream
+                if override is not None:
+                    stream = override
+                obs["stream"] = stream
+                obs["phases"][0]["stream"] = stream
+            cuts = list(seg) if (seg is not None and first) else [len(stream)]
             if bytewise_all:
                 cuts = [1] * len(stream)
             assert sum(cuts) == len(stream), (cuts, stream)
@@ -278,25 +289,20 @@ def session(server_kind, body, chunks, seg, bytewise_all=False, override=None):
 
 
 # ---------------------------------------------------------------- verdict
-def judge(lines, body, chunks, obs):
-    """Returns list of (kind, detail) end-to-end failures (server-side observations only)."""
-    bad = []
-    stream = obs["stream"]
-    if stream is None:
-        return [("no-data-phase", "client never reached DATA; client sent %r" % (obs["client_cmds"],))]
-    # commands
+def judge_commands(obs):
     extra = list(obs["server_cmds"])
     for c in obs["client_cmds"]:
         if c in extra:
             extra.remove(c)
     if extra:
-        bad.append(("body-line-executed-as-command", "server handled %r in command mode; the client's commands were %r" % (
-            extra, obs["client_cmds"])))
-    # message
-    if len(obs["msgs"]) != 1:
-        bad.append(("message-count", "%d messages created" % len(obs["msgs"])))
-        return bad
-    got, eoms, lost = obs["msgs"][0]
+        return [("body-line-executed-as-command", "server handled %r in command mode; the client's commands were %r" % (
+            extra, obs["client_cmds"]))]
+    return []
+
+
+def judge_message(lines, stream, msg):
+    bad = []
+    got, eoms, lost = msg
     if got[:1] == [RCVD]:
         got = got[1:]
     if len(eoms) != 1:
@@ -304,11 +310,54 @@ def judge(lines, body, chunks, obs):
     else:
         at, _ = eoms[0]
         if at != len(stream):
-            bad.append(("data-ended-before-terminator", "eomReceived after %d of %d DATA-phase bytes (stream %r)" % (
+            bad.append(("data-ended-before-terminator", "eomReceived after %r of %d DATA-phase bytes (stream %r)" % (
                 at, len(stream), stream)))
     if got not in acceptable_messages(lines):
-        bad.append(("message-lines-differ", "server message got %r, body lines %r" % (got, lines)))
+        bad.append(("message-lines-differ", "server message got %r, body lines %r (documented form %r)" % (
+            got, lines, acceptable_messages(lines)[0])))
     return bad
+
+
+def judge(lines, body, chunks, obs):
+    """Returns list of (kind, detail) end-to-end failures (server-side observations only)."""
+    stream = obs["stream"]
+    if stream is None:
+        return [("no-data-phase", "client never reached DATA; client sent %r" % (obs["client_cmds"],))]
+    bad = judge_commands(obs)
+    if len(obs["msgs"]) != 1:
+        bad.append(("message-count", "%d messages created" % len(obs["msgs"])))
+        return bad
+    return bad + judge_message(lines, stream, obs["msgs"][0])
+
+
+def evaluate_multi(server_kind, lines_list, bytewise_all):
+    """Several messages over ONE connection (second SMTPClient transaction after RSET); whole reads.  The same
+    transparency oracle is applied to every message.  -> [(sig, detail)]"""
+    bodies = [b"".join(ln + b"\n" for ln in lines) for lines in lines_list]
+    obs = session(server_kind, bodies[0], (len(bodies[0]),) if bodies[0] else (), None, bytewise_all, None, bodies[1:])
+    if obs["loop"]:
+        return [("harness:pump-did-not-quiesce", "%r" % (lines_list,))]
+    out = []
+    ctx = "%s server; %d messages on one connection, bodies %r, delivered %s" % (
+        server_kind, len(bodies), bodies, "byte-at-a-time" if bytewise_all else "whole")
+    for k, d in judge_commands(obs):
+        out.append(("SMTP.dataLineReceived:%s" % k, ctx + ": " + d))
+    if len(obs["phases"]) != len(bodies) or len(obs["msgs"]) != len(bodies):
+        out.append(("SMTP:later-message-on-same-connection:not-transferred",
+                    ctx + ": %d DATA phases, %d server messages" % (len(obs["phases"]), len(obs["msgs"]))))
+        return out
+    for idx, (lines, ph, msg) in enumerate(zip(lines_list, obs["phases"], obs["msgs"])):
+        bad = judge_message(lines, ph["stream"], msg)
+        if not bad:
+            continue
+        later = ":later-message-on-same-connection" if idx else ""
+        if ph["client_stream"] != ref_stream(lines):
+            out.append(("SMTPClient:data-stream-wrong" + later, ctx + ": message %d stream %r, reference %r; %s" % (
+                idx + 1, ph["client_stream"], ref_stream(lines), "; ".join("%s: %s" % b for b in bad))))
+        else:
+            for k, d in bad:
+                out.append(("SMTP.dataLineReceived:%s%s" % (k, later), ctx + ": message %d: %s" % (idx + 1, d)))
+    return out
 
 
 def attribute(lines, body, chunks, obs):
@@ -426,14 +475,51 @@ def _bodies(tier):
     return out
 
 
+def _small_bodies(maxlines):
+    out = []
+    for k in range(0, maxlines + 1):
+        out += [p for p in itertools.product(range(len(LINES)), repeat=k)]
+    return out
+
+
 def shards(tier, seed):
     bodies = _bodies(tier)
     n = 48 if tier == "quick" else 96
-    return [{"bodies": bodies[i::n]} for i in range(n) if bodies[i::n]]
+    out = [{"bodies": bodies[i::n]} for i in range(n) if bodies[i::n]]
+    firsts = _small_bodies(2)
+    m = 8 if tier == "quick" else 16
+    out += [{"multi_first": firsts[i::m]} for i in range(m)]
+    return out
+
+
+def run_multi(shard, tier, st):
+    seconds = _small_bodies(2)
+    singles = _small_bodies(1)
+    kinds = ["SMTP"] if tier == "quick" else ["SMTP", "ESMTP"]
+    for first in shard["multi_first"]:
+        combos = [(first, second) for second in seconds]
+        if tier != "quick" and len(first) <= 1:
+            combos += [(first, b, c) for b in singles for c in singles]
+        for combo in combos:
+            lines_list = [[LINES[i] for i in idx] for idx in combo]
+            for server_kind in kinds:
+                for bw in (False, True):
+                    st.evaluations += 1
+                    bad = evaluate_multi(server_kind, lines_list, bw)
+                    st.nt(("multi", server_kind, combo, bw))
+                    heads = ["hdr" if (l and b":" in l[0]) else ("blank" if (l and not l[0]) else ("empty" if not l else "text"))
+                             for l in lines_list]
+                    st.outcome("multi:" + ">".join(heads[:2]) + (":ok" if not bad else ":violating"))
+                    for sig, detail in bad:
+                        st.outcome(sig)
+                        st.violation(sig, detail, {"multi": [list(l) for l in lines_list], "server": server_kind, "bytewise": bw})
+    return st
 
 
 def run_shard(shard, tier, seed):
     st = Stats()
+    if "multi_first" in shard:
+        return run_multi(shard, tier, st)
     ncuts = 1 if tier == "quick" else 2
     for idx in shard["bodies"]:
         lines = [LINES[i] for i in idx]
@@ -497,6 +583,8 @@ def run_shard(shard, tier, seed):
 
 
 def replay(w):
+    if w.get("multi") is not None:
+        return evaluate_multi(w["server"], [[bytes(x) for x in l] for l in w["multi"]], bool(w.get("bytewise")))
     lines = [bytes(x) if not isinstance(x, bytes) else x for x in w["lines"]]
     seg = tuple(w["seg"]) if w.get("seg") else None
     bad, _ = evaluate(w["server"], lines, tuple(w["chunks"]), seg, bool(w.get("bytewise")), w.get("whole_ok"),
